@@ -56,6 +56,9 @@ def gen(rng, idx, tier, seed):
             rng, dtypes=dts, allow_char=True, allow_unlimited=True,
             # the netCDF-4 model allows several unlimited dimensions
             second_unlimited=(fmt == 'NETCDF4' and idx % 8 == 3))}
+    if 'core' in fs:
+        fs['core']['sized_typecodes'] = bool(idx % 5 == 2)
+        fs['core']['values_kw'] = bool(idx % 5 == 4)
     return {'file': fs, 'format': fmt,
             'complevel': int(rng.choice([0, 0, 4])),
             'via': str(rng.choice(['save', 'save', 'pncwrite', 'pncgen'])),
